@@ -20,6 +20,14 @@ pub enum DOp {
     Contains(u8),
     NextOf(u8),
     CursorNext,
+    /// unlink node i without freeing it (the caller keeps it)
+    Unlink(u8),
+    /// `contains` on a detached (unlinked, still allocated) node
+    ContainsDetached(u8),
+    /// link detached node j at the back again
+    Relink(u8),
+    /// free detached node j
+    FreeDetached(u8),
 }
 
 impl DOp {
@@ -34,6 +42,10 @@ impl DOp {
             DOp::Contains(i) => format!("contains({i})"),
             DOp::NextOf(i) => format!("next_of({i})"),
             DOp::CursorNext => "cursor_next".into(),
+            DOp::Unlink(i) => format!("unlink({i})"),
+            DOp::ContainsDetached(i) => format!("contains_detached({i})"),
+            DOp::Relink(i) => format!("relink({i})"),
+            DOp::FreeDetached(i) => format!("free_detached({i})"),
         }
     }
     fn parse(s: &str) -> DOp {
@@ -51,6 +63,10 @@ impl DOp {
             "contains" => DOp::Contains(a),
             "next_of" => DOp::NextOf(a),
             "cursor_next" => DOp::CursorNext,
+            "unlink" => DOp::Unlink(a),
+            "contains_detached" => DOp::ContainsDetached(a),
+            "relink" => DOp::Relink(a),
+            "free_detached" => DOp::FreeDetached(a),
             _ => panic!("bad deque op {s}"),
         }
     }
@@ -69,6 +85,8 @@ struct Ref {
     order: Vec<u32>,
     cur: Cur,
     next_id: u32,
+    /// unlinked but still allocated nodes
+    detached: Vec<u32>,
 }
 
 impl Ref {
@@ -95,6 +113,8 @@ struct Live {
     f: DequeFacade<V>,
     /// element id -> node address, in the reference's order
     addr: Vec<(u32, usize)>,
+    /// detached nodes: element id -> node address
+    det: Vec<(u32, usize)>,
 }
 
 impl Live {
@@ -186,6 +206,38 @@ fn apply(l: &mut Live, r: &mut Ref, op: DOp) -> (String, String) {
             let got = unsafe { l.f.next_of(l.addr_of(id)) };
             (format!("{got:?}"), format!("{want:?}"))
         }
+        DOp::Unlink(i) => {
+            let id = r.order[i as usize];
+            let a = l.addr_of(id);
+            if r.at(id) {
+                r.advance();
+            }
+            r.order.remove(i as usize);
+            r.detached.push(id);
+            l.addr.retain(|x| x.0 != id);
+            l.det.push((id, a));
+            unsafe { l.f.unlink(a) };
+            ("()".into(), "()".into())
+        }
+        DOp::ContainsDetached(j) => {
+            let (_id, a) = l.det[j as usize];
+            let got = unsafe { l.f.contains(a) };
+            (format!("{got}"), "false".into())
+        }
+        DOp::Relink(j) => {
+            let (id, a) = l.det.remove(j as usize);
+            r.detached.remove(j as usize);
+            r.order.push(id);
+            let a2 = unsafe { l.f.push_back_unlinked(a) };
+            l.addr.push((id, a2));
+            ("()".into(), "()".into())
+        }
+        DOp::FreeDetached(j) => {
+            let (id, a) = l.det.remove(j as usize);
+            r.detached.remove(j as usize);
+            let v = unsafe { DequeFacade::<V>::free_unlinked(a) };
+            (format!("{}", v.id), format!("{id}"))
+        }
         DOp::CursorNext => {
             if r.cur == Cur::None {
                 if let Some(&h) = r.order.first() {
@@ -206,7 +258,7 @@ fn apply(l: &mut Live, r: &mut Ref, op: DOp) -> (String, String) {
 fn enabled(r: &Ref, max_nodes: usize) -> Vec<DOp> {
     let n = r.order.len();
     let mut v = Vec::new();
-    if n < max_nodes {
+    if n + r.detached.len() < max_nodes {
         v.push(DOp::PushBack);
     }
     v.push(DOp::PopFront);
@@ -225,6 +277,16 @@ fn enabled(r: &Ref, max_nodes: usize) -> Vec<DOp> {
     for i in 0..n as u8 {
         v.push(DOp::NextOf(i));
     }
+    if r.detached.len() < 2 {
+        for i in 0..n as u8 {
+            v.push(DOp::Unlink(i));
+        }
+    }
+    for j in 0..r.detached.len() as u8 {
+        v.push(DOp::ContainsDetached(j));
+        v.push(DOp::Relink(j));
+        v.push(DOp::FreeDetached(j));
+    }
     v
 }
 
@@ -232,8 +294,8 @@ fn enabled(r: &Ref, max_nodes: usize) -> Vec<DOp> {
 /// `check_last` (prefixes were checked when they were discovered).
 fn execute(ops: &[DOp]) -> Result<(Ref, Vec<(String, String)>), String> {
     tracker().reset();
-    let mut l = Live { f: DequeFacade::new(), addr: vec![] };
-    let mut r = Ref { order: vec![], cur: Cur::None, next_id: 0 };
+    let mut l = Live { f: DequeFacade::new(), addr: vec![], det: vec![] };
+    let mut r = Ref { order: vec![], cur: Cur::None, next_id: 0, detached: vec![] };
     let mut problems: Vec<(String, String)> = Vec::new();
     for (n, op) in ops.iter().enumerate() {
         let last = n + 1 == ops.len();
@@ -267,9 +329,12 @@ fn execute(ops: &[DOp]) -> Result<(Ref, Vec<(String, String)>), String> {
             problems.push((format!("deque:cursor:{}", op.text().split('(').next().unwrap()), format!("after {}: cursor {cur:?}, reference {:?}", op.text(), r.cur)));
         }
         let (_lk, lv) = tracker().live();
-        if lv != r.order.len() as i64 {
-            problems.push(("deque:live-elements".into(), format!("after {}: {lv} live elements for {} linked nodes", op.text(), r.order.len())));
+        if lv != (r.order.len() + r.detached.len()) as i64 {
+            problems.push(("deque:live-elements".into(), format!("after {}: {lv} live elements for {} linked and {} detached nodes", op.text(), r.order.len(), r.detached.len())));
         }
+    }
+    for (_, a) in l.det.drain(..) {
+        drop(unsafe { DequeFacade::<V>::free_unlinked(a) });
     }
     drop(l);
     let (_, lv) = tracker().live();
@@ -334,6 +399,7 @@ pub fn run(max_nodes: usize, depth: usize, wall_cap_s: f64) -> DequeResult {
             c.u32(sorted.binary_search(id).unwrap() as u32);
         }
         c.tag("|");
+        c.u32(r.detached.len() as u32);
         match &r.cur {
             Cur::None => c.u8(0),
             Cur::Done => c.u8(1),
@@ -344,7 +410,7 @@ pub fn run(max_nodes: usize, depth: usize, wall_cap_s: f64) -> DequeResult {
         }
         fingerprint(&c.0)
     };
-    let r0 = Ref { order: vec![], cur: Cur::None, next_id: 0 };
+    let r0 = Ref { order: vec![], cur: Cur::None, next_id: 0, detached: vec![] };
     seen.insert(canon(&r0));
     let mut frontier: Vec<(Vec<DOp>, Ref)> = vec![(vec![], r0)];
     'levels: for d in 0..depth {
